@@ -5,7 +5,7 @@ CONSTANTS
   FieldSeps = {":"}
   ArraySizes = {0}
   ActiveFns = {"XMLEscapeChars", "XMLEscapeCharsDecoder"}
-  ActiveOps = {"dec", "enc", "seqrt"}
+  ActiveOps = {"dec", "enc", "seqrt", "beautify"}
   MaxHist = 4
 INVARIANTS Functional OnlyRelevant Emit
 CHECK_DEADLOCK FALSE
